@@ -152,7 +152,7 @@ def run(ctx):
     if not ctx.quick and mc.get("zero_actions"):
         raise vlib.Infra("vacuous: spec actions never taken: %s" % mc["zero_actions"])
 
-    sim = vlib.tlc_sim(ctx, "Limiter", "Limiter_sim.cfg", num=ctx.pick(1200, 6000), depth=80, timeout=ctx.pick(600, 2400))
+    sim = vlib.tlc_sim(ctx, "Limiter", "Limiter_sim.cfg", num=ctx.pick(1000, 6000), depth=80, timeout=ctx.pick(600, 2400))
     behs = [_norm(b) for b in sim["behaviours"]]
     n_sim, n_enum = len(behs), 0
     if not ctx.quick:
